@@ -105,6 +105,10 @@ func (e *Enc) callCommon(fr *Frame, st *State, cc *ssa.CallCommon, args []*Val, 
 	if r, handled := e.special(fr, st, full, callee, args, rt, site); handled {
 		return r
 	}
+	if isLogArgHelper(callee) {
+		e.note("T-log: %s is only used to build log arguments; treated as pure and total", full)
+		return e.fresh(rt, "logarg")
+	}
 	c := e.w.contractFor(callee)
 	if c != nil && !c.Inline {
 		var names []string
@@ -128,6 +132,18 @@ func (e *Enc) callCommon(fr *Frame, st *State, cc *ssa.CallCommon, args []*Val, 
 	r := e.fresh(rt, "ext")
 	e.assume(st, e.wf(r, st.alloc))
 	return r
+}
+
+// log-argument helpers: string-valued describe()/id() style methods
+func isLogArgHelper(f *ssa.Function) bool {
+	if f.Signature.Recv() == nil || f.Signature.Results().Len() != 1 || !isString(f.Signature.Results().At(0).Type()) {
+		return false
+	}
+	switch f.Name() {
+	case "describe", "id", "ssid", "String":
+		return f.Signature.Params().Len() <= 1
+	}
+	return false
 }
 
 func (e *Enc) inlineCall(fr *Frame, st *State, callee *ssa.Function, args []*Val, bind []*Val, rt types.Type) *Val {
@@ -165,6 +181,11 @@ func (e *Enc) invoke(fr *Frame, st *State, cc *ssa.CallCommon, recv *Val, args [
 		pk := ""
 		if n.Obj().Pkg() != nil {
 			pk = n.Obj().Pkg().Path()
+		}
+		if tn == "IRaftEventListener" || tn == "ISystemEventListener" {
+			// event listeners: no effect on modelled state (DESIGN 2.4 item 4)
+			r := e.fresh(rt, "ev")
+			return r
 		}
 		if tn == "ILogger" {
 			if name == "Panicf" {
@@ -430,6 +451,8 @@ func (e *Enc) applyModifies(st *State, old *State, c *FuncContract, env *SpecEnv
 		case "all":
 			st.heap[t.comp] = e.s.Fresh(sym("h."+t.comp), t.sort)
 			e.compSort[t.comp] = t.sort
+		case "fresh":
+			// only freshly allocated objects are written: nothing visible changes
 		}
 	}
 }
@@ -510,7 +533,7 @@ func (e *Enc) builtin(fr *Frame, st *State, b *ssa.Builtin, cc *ssa.CallCommon, 
 		switch u := at.Underlying().(type) {
 		case *types.Map:
 			ln := e.mapLen(st, u, a.term())
-			e.assume(st, fmt.Sprintf("(and (<= 0 %s) (=> (= %s 0) (= %s 0)))", ln, a.term(), ln))
+			e.assume(st, fmt.Sprintf("(and (<= 0 %s) (<= %s 1099511627776) (=> (= %s 0) (= %s 0)))", ln, ln, a.term(), ln))
 			return intVal(rt, ln)
 		case *types.Chan:
 			lenA := e.comp(st, "CH:len", "(Array Int Int)")
@@ -739,7 +762,7 @@ func (e *Enc) callWriteSet(fr *Frame, li *loopInfo, st *State, cc *ssa.CallCommo
 	if cc.IsInvoke() {
 		if n, ok := cc.Value.Type().(*types.Named); ok {
 			tn := n.Obj().Name()
-			if tn == "ILogger" || (tn == "error" && cc.Method.Name() == "Error") {
+			if tn == "ILogger" || tn == "IRaftEventListener" || tn == "ISystemEventListener" || (tn == "error" && cc.Method.Name() == "Error") {
 				return
 			}
 			pk := ""
@@ -807,6 +830,9 @@ func (e *Enc) callWriteSet(fr *Frame, li *loopInfo, st *State, cc *ssa.CallCommo
 	case full == "errors.Is" || full == "github.com/cockroachdb/errors.Is" || full == "fmt.Sprintf" || full == "fmt.Errorf" || full == "errors.New":
 		return
 	case strings.HasPrefix(full, "github.com/cockroachdb/errors."):
+		return
+	}
+	if isLogArgHelper(callee) {
 		return
 	}
 	c := e.w.contractFor(callee)
